@@ -12,7 +12,7 @@ for pid in sys.argv[2:]:
                    capture_output=True)
     # mechanisms already used in earlier rounds (titles only), so that the new changes differ
     used = []
-    for n in range(1, 9):
+    for n in range(1, 13):
         f = f"/verif/seeded/{pid}-{n}/README.md"
         if os.path.exists(f):
             lines = [l.strip("# \n") for l in open(f) if l.strip()]
